@@ -49,6 +49,7 @@ class LocalNameDefs(PlainDefs):
 
 
 class SoloDefs(rustgen.EnumGen):
+    palette_map = rustgen.NOSTD_MAP
     defs_only = True
 
 
